@@ -720,3 +720,628 @@ Proof. reflexivity. Qed.
 Example ex_custom_out_of_range :
   get_usable (Custom (fun _ => Some 1%nat)) [ {| st := Degraded; cf := 0; cs := 1 |} ] 7 = (None, 7).
 Proof. reflexivity. Qed.
+
+(* ================= the published status according to the rule of the property ================= *)
+Lemma all_suffix_iff p n l : all_suffix p n l <-> (n <= trail p l)%nat.
+Proof.
+  split.
+  - intros (pre & run & -> & Hn & Hf). rewrite <- Hn. apply suffix_trail. exact Hf.
+  - apply trail_suffix.
+Qed.
+
+Lemma flip_rule_step f s rs x :
+  flip_rule f s (rs ++ [x]) x (st (run_results f s rs)) (st (run_results f s (rs ++ [x]))).
+Proof.
+  rewrite status_step. destruct x; cbn [flip_rule]; try reflexivity.
+  - destruct (s <=? _) eqn:E; split; intros H; try reflexivity.
+    + exfalso. apply H. apply all_suffix_iff. apply Z.leb_le in E. lia.
+    + apply all_suffix_iff in H. apply Z.leb_gt in E. lia.
+  - destruct (f <=? _) eqn:E; split; intros H; try reflexivity.
+    + exfalso. apply H. apply all_suffix_iff. apply Z.leb_le in E. lia.
+    + apply all_suffix_iff in H. apply Z.leb_gt in E. lia.
+Qed.
+
+Lemma published_run f s rs : published f s rs (st (run_results f s rs)).
+Proof.
+  induction rs as [|x rs IH] using rev_ind; [constructor|].
+  econstructor; [exact IH|apply flip_rule_step].
+Qed.
+
+Lemma all_suffix_dec p n l : all_suffix p n l \/ ~ all_suffix p n l.
+Proof.
+  destruct (le_lt_dec n (trail p l)) as [H|H].
+  - left. apply all_suffix_iff. exact H.
+  - right. intros H'. apply all_suffix_iff in H'. lia.
+Qed.
+
+Lemma flip_rule_fun f s upto x before a b :
+  flip_rule f s upto x before a -> flip_rule f s upto x before b -> a = b.
+Proof.
+  destruct x; cbn [flip_rule]; intros Ha Hb; try congruence.
+  - destruct (all_suffix_dec is_usable (Z.to_nat s) (nonunk upto)) as [H|H];
+      destruct Ha as [Ha1 Ha2], Hb as [Hb1 Hb2]; [rewrite (Ha1 H), (Hb1 H)|rewrite (Ha2 H), (Hb2 H)]; reflexivity.
+  - destruct (all_suffix_dec is_unhealthy (Z.to_nat f) (nonunk upto)) as [H|H];
+      destruct Ha as [Ha1 Ha2], Hb as [Hb1 Hb2]; [rewrite (Ha1 H), (Hb1 H)|rewrite (Ha2 H), (Hb2 H)]; reflexivity.
+Qed.
+
+Lemma published_unique f s rs a b : published f s rs a -> published f s rs b -> a = b.
+Proof.
+  intros Ha. revert b. induction Ha as [|rs x before after Hp IH Hr]; intros b Hb.
+  - inversion Hb; [reflexivity|]. destruct rs; discriminate.
+  - inversion Hb as [E|rs' x' before' after' Hp' Hr' E]; [destruct rs; discriminate|].
+    apply app_inj_tail in E. destruct E as [-> ->]. subst.
+    specialize (IH _ Hp'). subst before'. eapply flip_rule_fun; eassumption.
+Qed.
+
+Lemma published_is_run f s rs a : published f s rs a <-> a = st (run_results f s rs).
+Proof.
+  split; [intros H; eapply published_unique; [exact H|apply published_run]|intros ->; apply published_run].
+Qed.
+
+(* the "only" clauses, stated on the rule-based specification *)
+Lemma published_unhealthy_only_after f s rs x before after :
+  published f s rs before -> published f s (rs ++ [x]) after ->
+  before <> Unhealthy -> after = Unhealthy ->
+  x = Unhealthy /\ all_suffix is_unhealthy (Z.to_nat f) (nonunk (rs ++ [x])).
+Proof.
+  intros Hb Ha Hne He. apply published_is_run in Hb, Ha. subst.
+  rewrite status_step in He.
+  destruct x; try congruence; try discriminate.
+  - destruct (s <=? _); [discriminate|congruence].
+  - destruct (f <=? _) eqn:E; [|congruence]. split; [reflexivity|].
+    apply Z.leb_le in E. apply trail_suffix. lia.
+Qed.
+
+Lemma published_healthy_only_after f s rs x before after :
+  published f s rs before -> published f s (rs ++ [x]) after ->
+  before <> Healthy -> after = Healthy ->
+  x = Healthy /\ all_suffix is_usable (Z.to_nat s) (nonunk (rs ++ [x])).
+Proof.
+  intros Hb Ha Hne He. apply published_is_run in Hb, Ha. subst.
+  rewrite status_step in He.
+  destruct x; try congruence; try discriminate.
+  - destruct (s <=? _) eqn:E; [|congruence]. split; [reflexivity|].
+    apply Z.leb_le in E. apply trail_suffix. lia.
+  - destruct (f <=? _); [discriminate|congruence].
+Qed.
+
+(* effective result spelled out *)
+Lemma effective_spec timeout a d :
+  effective timeout a d = if (0 <? d) && (timeout <? d) then Unhealthy else a.
+Proof.
+  unfold effective. destruct (d <=? 0) eqn:E1.
+  - apply Z.leb_le in E1. destruct (0 <? d) eqn:E2; [apply Z.ltb_lt in E2; lia|reflexivity].
+  - apply Z.leb_gt in E1. destruct (0 <? d) eqn:E2; [|apply Z.ltb_ge in E2; lia]. cbn.
+    destruct (d <=? timeout) eqn:E3.
+    + apply Z.leb_le in E3. destruct (timeout <? d) eqn:E4; [apply Z.ltb_lt in E4; lia|reflexivity].
+    + apply Z.leb_gt in E3. destruct (timeout <? d) eqn:E4; [reflexivity|apply Z.ltb_ge in E4; lia].
+Qed.
+
+Lemma published_status c scripts waits :
+  Forall2 (fun orig r =>
+     exists results,
+       0 <= r_finished r /\ length results = Z.to_nat (r_finished r) /\
+       (forall k, (k < length results)%nat ->
+           nth k results Unknown =
+             (if (0 <? snd (answer_at orig k)) && (timeout c <? snd (answer_at orig k))
+              then Unhealthy else fst (answer_at orig k))) /\
+       published (fthr c) (sthr c) results (st (r_state r)))
+   scripts (rsims (reach c scripts waits)).
+Proof.
+  pose proof (sim_is_fold c scripts waits) as H.
+  induction H as [|orig r l l' [Hf Hr] Hl IH]; constructor; [|exact IH].
+  exists (map (eff_at c orig) (seq 0 (Z.to_nat (r_finished r)))).
+  split; [exact Hf|]. split; [rewrite map_length, seq_length; reflexivity|]. split.
+  - intros k Hk. rewrite map_length, seq_length in Hk.
+    rewrite (nth_indep _ Unknown (eff_at c orig 0)) by (rewrite map_length, seq_length; exact Hk).
+    rewrite map_nth, seq_nth by exact Hk. cbn [plus]. unfold eff_at. apply effective_spec.
+  - rewrite Hr. apply published_run.
+Qed.
+
+(* ================= settle: the fuel bound is never reached ================= *)
+Section Fuel.
+  Context (c : config).
+
+  (* rounds that can still fire at instant t from tick deadline d (Skip tolerance 5 ms) *)
+  Definition rounds_left (t d : Z) : nat :=
+    if d <=? t then S (Z.to_nat (Z.min (t - d) 5)) else O.
+  Definition need (s : sim) : nat :=
+    match ph s with
+    | PInit u => if u <=? now s then 4 else 1
+    | PTick d => 2 * rounds_left (now s) d + 1
+    | PRound d => 2 * rounds_left (now s) d + 2
+    end.
+
+  Lemma next_deadline_rounds t d :
+    1 <= interval c -> d <= t ->
+    (rounds_left t (next_deadline c d t) < rounds_left t d)%nat.
+  Proof.
+    intros Hi Hd. unfold next_deadline.
+    destruct (d + 5 <? t) eqn:E.
+    - apply Z.ltb_lt in E.
+      assert (0 <= (t - d) mod interval c < interval c) by (apply Z.mod_pos_bound; lia).
+      unfold rounds_left.
+      destruct (t + interval c - (t - d) mod interval c <=? t) eqn:E2; [apply Z.leb_le in E2; lia|].
+      destruct (d <=? t) eqn:E3; [lia|apply Z.leb_gt in E3; lia].
+    - apply Z.ltb_ge in E. unfold rounds_left.
+      destruct (d <=? t) eqn:E3; [|apply Z.leb_gt in E3; lia].
+      destruct (d + interval c <=? t) eqn:E2; [apply Z.leb_le in E2|]; lia.
+  Qed.
+
+  Lemma need_pos s : (1 <= need s)%nat.
+  Proof. unfold need. destruct (ph s); [destruct (_ <=? _)| |]; lia. Qed.
+
+  Lemma need_bound s : (need s <= 14)%nat.
+  Proof.
+    unfold need, rounds_left. destruct (ph s) as [u|d|d].
+    - destruct (_ <=? _); lia.
+    - destruct (d <=? now s); lia.
+    - destruct (d <=? now s); lia.
+  Qed.
+
+  (* the result of settle does not depend on the fuel once the fuel covers [need] *)
+  Lemma settle_fuel_irrel :
+    1 <= interval c ->
+    forall f1 f2 s, (need s <= f1)%nat -> (need s <= f2)%nat -> settle c f1 s = settle c f2 s.
+  Proof.
+    intros Hi f1. induction f1 as [|f1 IH]; intros f2 s H1 H2.
+    { pose proof (need_pos s). lia. }
+    destruct f2 as [|f2]; [pose proof (need_pos s); lia|].
+    cbn [settle]. unfold need in H1, H2.
+    destruct (ph s) as [u|d|d] eqn:Eph.
+    - destruct (u <=? now s) eqn:E; [|reflexivity].
+      apply IH; unfold need; cbn [ph now]; unfold rounds_left; rewrite Z.leb_refl, Z.sub_diag; cbn; lia.
+    - destruct (d <=? now s) eqn:E; [|reflexivity].
+      apply Z.leb_le in E. pose proof (next_deadline_rounds (now s) d Hi E).
+      apply IH; unfold need; cbn [ph now]; lia.
+    - destruct (forallb idle _); [|reflexivity].
+      apply IH; unfold need; cbn [ph now]; lia.
+  Qed.
+
+  Lemma fuel_suffices :
+    1 <= interval c -> forall s fuel, (fuel0 <= fuel)%nat -> settle c fuel s = settle c fuel0 s.
+  Proof.
+    intros Hi s fuel Hf. pose proof (need_bound s). unfold fuel0 in *.
+    apply settle_fuel_irrel; [exact Hi|lia|lia].
+  Qed.
+
+  (* quiescence: nothing more can happen at this instant *)
+  Definition quiescent (s : sim) : Prop :=
+    map (complete_due c (now s)) (rsims s) = rsims s /\
+    match ph s with
+    | PInit u => (u <=? now s) = false
+    | PTick d => (d <=? now s) = false
+    | PRound _ => forallb idle (rsims s) = false
+    end.
+
+  Lemma complete_due_idem t r : complete_due c t (complete_due c t r) = complete_due c t r.
+  Proof.
+    assert (H : r_pending (complete_due c t r) = None \/ complete_due c t r = r /\
+                 (forall due e, r_pending r = Some (due, e) -> (due <=? t) = false)).
+    { unfold complete_due. destruct (r_pending r) as [[due e]|] eqn:Ep.
+      - destruct (due <=? t) eqn:E; [left; reflexivity|].
+        right. split; [reflexivity|]. intros due' e' H'. injection H' as <- <-. exact E.
+      - left. exact Ep. }
+    destruct H as [H|[H1 H2]].
+    - unfold complete_due at 1. rewrite H. reflexivity.
+    - rewrite H1. unfold complete_due. destruct (r_pending r) as [[due e]|] eqn:Ep; [|reflexivity].
+      rewrite (H2 due e eq_refl). reflexivity.
+  Qed.
+
+  Lemma map_complete_idem t rs :
+    map (complete_due c t) (map (complete_due c t) rs) = map (complete_due c t) rs.
+  Proof. rewrite map_map. apply map_ext. intros r. apply complete_due_idem. Qed.
+
+  Lemma settle_quiescent :
+    1 <= interval c -> forall fuel s, (need s <= fuel)%nat -> quiescent (settle c fuel s).
+  Proof.
+    intros Hi fuel. induction fuel as [|fuel IH]; intros s H.
+    { pose proof (need_pos s). lia. }
+    cbn [settle]. unfold need in H.
+    destruct (ph s) as [u|d|d] eqn:Eph.
+    - destruct (u <=? now s) eqn:E.
+      + apply IH; unfold need; cbn [ph now]; unfold rounds_left; rewrite Z.leb_refl, Z.sub_diag; cbn; lia.
+      + split; cbn [now rsims ph]; [apply map_complete_idem|exact E].
+    - destruct (d <=? now s) eqn:E.
+      + apply Z.leb_le in E. pose proof (next_deadline_rounds (now s) d Hi E).
+        apply IH; unfold need; cbn [ph now]; lia.
+      + split; cbn [now rsims ph]; [apply map_complete_idem|exact E].
+    - destruct (forallb idle (map (complete_due c (now s)) (rsims s))) eqn:E.
+      + apply IH; unfold need; cbn [ph now]; lia.
+      + split; cbn [now rsims ph]; [apply map_complete_idem|exact E].
+  Qed.
+
+  Lemma quiescent_fix s : quiescent s -> forall fuel, settle c fuel s = s.
+  Proof.
+    intros [Hr Hp] fuel. destruct fuel as [|fuel]; [reflexivity|].
+    cbn [settle]. rewrite Hr. destruct s as [t rs p]. cbn [ph now rsims] in *.
+    destruct p; rewrite Hp; reflexivity.
+  Qed.
+
+  Lemma start_quiescent scripts : 1 <= interval c -> quiescent (start c scripts).
+  Proof. intros Hi. unfold start. apply settle_quiescent; [exact Hi|]. pose proof (need_bound {| now := 0; rsims := map (fun sc => {| r_state := rinit; r_script := sc; r_pending := None; r_started := 0; r_finished := 0; r_hist := [] |}) scripts; ph := PInit (init_delay c) |}). unfold fuel0. lia. Qed.
+
+  Lemma tick_quiescent s : 1 <= interval c -> quiescent (tick_ms c s).
+  Proof.
+    intros Hi. unfold tick_ms. apply settle_quiescent; [exact Hi|].
+    pose proof (need_bound {| now := now s + 1; rsims := rsims s; ph := ph s |}). unfold fuel0. lia.
+  Qed.
+
+  Lemma advance_quiescent n s : 1 <= interval c -> quiescent s -> quiescent (advance c n s).
+  Proof.
+    intros Hi. unfold advance. apply iter_sim_inv. intros s' _. apply tick_quiescent. exact Hi.
+  Qed.
+
+  Lemma reach_quiescent scripts waits : 1 <= interval c -> quiescent (reach c scripts waits).
+  Proof.
+    intros Hi. unfold reach. apply fold_left_inv; [apply start_quiescent; exact Hi|].
+    intros s n. apply advance_quiescent. exact Hi.
+  Qed.
+
+  Lemma reach_settled scripts waits fuel :
+    1 <= interval c -> settle c fuel (reach c scripts waits) = reach c scripts waits.
+  Proof. intros Hi. apply quiescent_fix. apply reach_quiescent. exact Hi. Qed.
+End Fuel.
+
+(* ================= non-vacuity of the added statements ================= *)
+(* a reachable state with a check in flight (resource 0: third check, will time out at 9) and timed-out
+   checks in the history (resource 1: Degraded after 5 ms > timeout 2 counted as Unhealthy) *)
+Definition ex_c := {| fthr := 2; sthr := 2; interval := 3; timeout := 2; init_delay := 1 |}.
+Definition ex_scripts : list (list (status * Z)) :=
+  [[(Healthy, 2); (Unhealthy, 0); (Healthy, 9); (Degraded, 1)]; [(Degraded, 5); (Unknown, 0)]].
+Example ex_reach_pending :
+  map (fun r => (r_pending r, r_hist r)) (rsims (reach ex_c ex_scripts [2%nat; 6%nat])) =
+    [(Some (9, Unhealthy), [Healthy; Unhealthy]); (None, [Unhealthy; Unknown; Healthy])] /\
+  observe (reach ex_c ex_scripts [2%nat; 6%nat]) = [3; 1; 0; 3; 2; 3; 0; 1; 3; 3] /\
+  observe (reach ex_c ex_scripts [2%nat; 6%nat; 1%nat]) = [2; 2; 0; 3; 3; 3; 0; 1; 3; 3] /\
+  1 <= interval ex_c.
+Proof. vm_compute. repeat split; discriminate. Qed.
+
+(* the configuration route bits of the strategy field do not change the model's answer *)
+Example ex_route_irrelevant :
+  run_script [2;1;1;5;2;0;1 + 16 * 3; 1; 7; 0;0; 0;0; 0;1; 1;1; 2;1; 1;1; 2;1; 1;1; 2;1] =
+  run_script [2;1;1;5;2;0;1; 1; 7; 0;0; 0;0; 0;1; 1;1; 2;1; 1;1; 2;1; 1;1; 2;1].
+Proof. vm_compute. reflexivity. Qed.
+
+(* ================= the two accessors, one round-robin cursor each ================= *)
+Lemma implies_usable_flt_of b : implies_usable (flt_of b).
+Proof. intros s. destruct b, s; cbn; congruence. Qed.
+
+Lemma get_many_is_get_one flt sg rs c k :
+  get_many flt sg rs c k = get_one flt sg c (repeat rs k).
+Proof.
+  revert c. induction k as [|k IH]; intros c; [reflexivity|].
+  cbn [get_many repeat get_one]. destruct (get_with_filter flt sg rs c) as [r c1].
+  rewrite IH. reflexivity.
+Qed.
+
+Lemma get_one_app flt sg c l1 l2 :
+  get_one flt sg c (l1 ++ l2) =
+  (fst (get_one flt sg c l1) ++ fst (get_one flt sg (snd (get_one flt sg c l1)) l2),
+   snd (get_one flt sg (snd (get_one flt sg c l1)) l2)).
+Proof.
+  revert c. induction l1 as [|rs t IH]; intros c; cbn [app get_one fst snd].
+  - destruct (get_one flt sg c l2); reflexivity.
+  - destruct (get_with_filter flt sg rs c) as [r c1]. rewrite IH.
+    destruct (get_one flt sg c1 t) as [l c2]. reflexivity.
+Qed.
+
+Lemma get_calls_app sg ch cu l1 l2 :
+  get_calls sg ch cu (l1 ++ l2) =
+  (fst (get_calls sg ch cu l1) ++
+     fst (get_calls sg (fst (snd (get_calls sg ch cu l1))) (snd (snd (get_calls sg ch cu l1))) l2),
+   snd (get_calls sg (fst (snd (get_calls sg ch cu l1))) (snd (snd (get_calls sg ch cu l1))) l2)).
+Proof.
+  revert ch cu. induction l1 as [|[b rs] t IH]; intros ch cu; cbn [app get_calls fst snd].
+  - destruct (get_calls sg ch cu l2) as [l [a b]]; reflexivity.
+  - destruct (get_with_filter (flt_of b) sg rs (if b then ch else cu)) as [r c1]. rewrite IH.
+    destruct (get_calls sg (if b then c1 else ch) (if b then cu else c1) t) as [l [x y]]. reflexivity.
+Qed.
+
+Lemma get_calls_length sg ch cu calls : length (fst (get_calls sg ch cu calls)) = length calls.
+Proof.
+  revert ch cu. induction calls as [|[b rs] t IH]; intros ch cu; [reflexivity|].
+  cbn [get_calls]. destruct (get_with_filter _ sg rs _) as [r c1].
+  specialize (IH (if b then c1 else ch) (if b then cu else c1)).
+  destruct (get_calls sg _ _ t) as [l cc]. cbn [fst length] in *. rewrite IH. reflexivity.
+Qed.
+
+(* non-interference: what one accessor returns, and where its cursor ends, does not depend on the
+   calls of the other accessor made in between (any strategy) *)
+Lemma get_calls_sub sg ch cu calls :
+  sub_picks true calls (fst (get_calls sg ch cu calls)) = fst (get_one is_healthy sg ch (sub_calls true calls)) /\
+  sub_picks false calls (fst (get_calls sg ch cu calls)) = fst (get_one is_usable sg cu (sub_calls false calls)) /\
+  fst (snd (get_calls sg ch cu calls)) = snd (get_one is_healthy sg ch (sub_calls true calls)) /\
+  snd (snd (get_calls sg ch cu calls)) = snd (get_one is_usable sg cu (sub_calls false calls)).
+Proof.
+  revert ch cu. induction calls as [|[b rs] t IH]; intros ch cu; [repeat split|].
+  cbn [get_calls]. destruct (get_with_filter (flt_of b) sg rs (if b then ch else cu)) as [r c1] eqn:E.
+  specialize (IH (if b then c1 else ch) (if b then cu else c1)).
+  destruct (get_calls sg (if b then c1 else ch) (if b then cu else c1) t) as [l [x y]].
+  cbn [fst snd] in *. destruct IH as (I1 & I2 & I3 & I4).
+  unfold sub_picks, sub_calls in *. cbn [combine filter fst snd map].
+  destruct b; cbn [Bool.eqb flt_of] in *; cbn [map snd get_one]; rewrite E.
+  - destruct (get_one is_healthy sg c1 _) as [l' c2] eqn:Eg. cbn [fst snd] in *.
+    repeat split; congruence.
+  - destruct (get_one is_usable sg c1 _) as [l' c2] eqn:Eg. cbn [fst snd] in *.
+    repeat split; congruence.
+Qed.
+
+Lemma sub_picks_one sg ch cu calls b :
+  sub_picks b calls (fst (get_calls sg ch cu calls)) =
+  fst (get_one (flt_of b) sg (if b then ch else cu) (sub_calls b calls)).
+Proof. destruct (get_calls_sub sg ch cu calls) as (H1 & H2 & _). destruct b; assumption. Qed.
+
+(* round robin, one accessor alone, statuses possibly changing between calls: as long as every call
+   sees the same eligible list av, the picks walk av cyclically *)
+Lemma get_one_rr flt c rss av :
+  implies_usable flt ->
+  (forall rs, In rs rss -> available flt rs = av) -> av <> [] ->
+  0 <= c -> c + Z.of_nat (length rss) <= two64 ->
+  fst (get_one flt RoundRobin c rss) =
+  map (fun j => pick_at av ((Z.to_nat c + j) mod length av)) (seq 0 (length rss)).
+Proof.
+  intros Hi Hav Hne. revert c. induction rss as [|rs rss IH]; intros c Hc Hm; [reflexivity|].
+  cbn [get_one length].
+  assert (Hb : available flt rs = av) by (apply Hav; left; reflexivity).
+  rewrite gwf_rr; [|exact Hi|rewrite Hb; exact Hne]. rewrite Hb.
+  assert (Hn : (0 < length av)%nat) by (destruct av; [congruence|cbn; lia]).
+  destruct (get_one flt RoundRobin ((c + 1) mod two64) rss) as [l c2] eqn:Eg.
+  cbn [fst seq map]. f_equal.
+  - unfold pick_at. rewrite zmod_nat by assumption. rewrite Nat.add_0_r. reflexivity.
+  - destruct rss as [|rs' rss']; [cbn in Eg; injection Eg as <- _; reflexivity|].
+    cbn [length] in Hm.
+    rewrite Z.mod_small in Eg by lia.
+    specialize (IH ltac:(intros r0 Hr0; apply Hav; right; exact Hr0) (c + 1) ltac:(lia) ltac:(cbn [length]; lia)).
+    rewrite Eg in IH. cbn [fst] in IH.
+    rewrite IH. rewrite <- seq_shift, map_map. apply map_ext. intros j.
+    replace (Z.to_nat (c + 1) + j)%nat with (Z.to_nat c + S j)%nat by lia. reflexivity.
+Qed.
+
+Lemma get_one_rr_even flt c rss av k i :
+  implies_usable flt ->
+  (forall rs, In rs rss -> available flt rs = av) ->
+  (0 < length av)%nat -> length rss = (k * length av)%nat ->
+  0 <= c -> c + Z.of_nat (length rss) <= two64 ->
+  In i (map fst av) ->
+  count_sel i (fst (get_one flt RoundRobin c rss)) = k.
+Proof.
+  intros Hi Hav Hn Hlen Hc Hw Hin.
+  assert (Hne : av <> []) by (destruct av; [cbn in Hn; lia|discriminate]).
+  destruct rss as [|rs0 rss'] eqn:Eo.
+  { cbn in Hlen. assert (k = 0)%nat by nia. subst k. reflexivity. }
+  rewrite <- Eo in *.
+  assert (Hnd : NoDup (map fst av)).
+  { rewrite <- (Hav rs0 ltac:(rewrite Eo; left; reflexivity)). apply available_nodup. }
+  rewrite (get_one_rr flt c rss av Hi Hav Hne Hc Hw). rewrite Hlen.
+  rewrite count_sel_map.
+  apply In_nth_error in Hin. destruct Hin as [p Hp].
+  assert (Hpn : (p < length av)%nat).
+  { rewrite <- (map_length fst). apply nth_error_Some. congruence. }
+  transitivity (cnt (length av) p (Z.to_nat c) (k * length av)); [|apply cnt_blocks; exact Hpn].
+  unfold cnt.
+  apply filter_length_ext. intros j _.
+  set (q := ((Z.to_nat c + j) mod length av)%nat).
+  assert (Hq : (q < length av)%nat) by (apply Nat.mod_upper_bound; lia).
+  unfold pick_at. rewrite <- nth_error_map.
+  destruct (nth_error (map fst av) q) as [x|] eqn:Eq.
+  2:{ apply nth_error_None in Eq. rewrite map_length in Eq. lia. }
+  destruct (Nat.eqb q p) eqn:E.
+  - apply Nat.eqb_eq in E. rewrite E in Eq. rewrite Hp in Eq. injection Eq as <-. apply Nat.eqb_refl.
+  - apply Nat.eqb_neq in E. apply Nat.eqb_neq. intros ->. apply E.
+    apply (proj1 (NoDup_nth_error (map fst av)) Hnd q p).
+    + rewrite map_length. exact Hq.
+    + congruence.
+Qed.
+
+Lemma in_sub_calls b calls rs : In rs (sub_calls b calls) -> In (b, rs) calls.
+Proof.
+  unfold sub_calls. intros H. apply in_map_iff in H. destruct H as ([b' rs'] & <- & H).
+  apply filter_In in H. destruct H as [H E]. cbn [fst snd] in *.
+  apply Bool.eqb_prop in E. subst. exact H.
+Qed.
+
+(* THE per-accessor statement: for ANY interleaving of calls through the two accessors, with statuses
+   changing in between or not, the picks of accessor b taken alone, over any k*n of its calls that all
+   see the same eligible list av of n members, contain each member exactly k times *)
+Lemma round_robin_even_per_accessor ch cu calls b av k i :
+  (forall rs, In (b, rs) calls -> available (flt_of b) rs = av) ->
+  (0 < length av)%nat -> length (sub_calls b calls) = (k * length av)%nat ->
+  0 <= (if b then ch else cu) ->
+  (if b then ch else cu) + Z.of_nat (k * length av) <= two64 ->
+  In i (map fst av) ->
+  count_sel i (sub_picks b calls (fst (get_calls RoundRobin ch cu calls))) = k.
+Proof.
+  intros Hav Hn Hlen Hc Hw Hin. rewrite sub_picks_one.
+  apply (get_one_rr_even (flt_of b) _ _ av); try assumption.
+  - apply implies_usable_flt_of.
+  - intros rs Hrs. apply Hav. apply in_sub_calls. exact Hrs.
+  - rewrite Hlen. exact Hw.
+Qed.
+
+Lemma filter_split_length {A} (q p : A -> bool) (L : list A) :
+  length (filter q L) =
+  (length (filter q (filter p L)) + length (filter q (filter (fun x => negb (p x)) L)))%nat.
+Proof.
+  induction L as [|x t IH]; [reflexivity|]. cbn [filter].
+  destruct (p x); cbn [negb filter]; destruct (q x); cbn [length]; lia.
+Qed.
+
+Lemma map_snd_combine {A B} (l : list A) (m : list B) : length l = length m -> map snd (combine l m) = m.
+Proof.
+  revert m. induction l as [|x t IH]; intros [|y m] H; cbn in *; try discriminate; [reflexivity|].
+  f_equal. apply IH. lia.
+Qed.
+
+Lemma count_sel_split i calls picks :
+  length calls = length picks ->
+  count_sel i picks = (count_sel i (sub_picks true calls picks) + count_sel i (sub_picks false calls picks))%nat.
+Proof.
+  intros Hl. unfold sub_picks.
+  rewrite <- (map_snd_combine calls picks Hl) at 1.
+  rewrite !count_sel_map.
+  rewrite (filter_split_length _ (fun p : bool * list rstate * option nat => Bool.eqb (fst (fst p)) true)).
+  rewrite (filter_ext (fun p : bool * list rstate * option nat => Bool.eqb (fst (fst p)) false)
+                      (fun p => negb (Bool.eqb (fst (fst p)) true))); [reflexivity|].
+  intros [[b rs] o]. cbn. destruct b; reflexivity.
+Qed.
+
+(* the combined stream is the merge of two even streams: over calls in which get_healthy is called
+   kh*n times and get_usable ku*n times, all seeing the same eligible list of n members, each member
+   is returned kh + ku times (NOT: every n consecutive calls of the merged stream are a permutation) *)
+Lemma round_robin_even_combined ch cu calls av kh ku i :
+  (forall b rs, In (b, rs) calls -> available (flt_of b) rs = av) ->
+  (0 < length av)%nat ->
+  length (sub_calls true calls) = (kh * length av)%nat ->
+  length (sub_calls false calls) = (ku * length av)%nat ->
+  0 <= ch -> ch + Z.of_nat (kh * length av) <= two64 ->
+  0 <= cu -> cu + Z.of_nat (ku * length av) <= two64 ->
+  In i (map fst av) ->
+  count_sel i (fst (get_calls RoundRobin ch cu calls)) = (kh + ku)%nat.
+Proof.
+  intros Hav Hn Hh Hu Hch Hwh Hcu Hwu Hin.
+  rewrite (count_sel_split i calls) by (symmetry; apply get_calls_length).
+  rewrite (round_robin_even_per_accessor ch cu calls true av kh i); try assumption;
+    [|intros rs Hrs; apply (Hav true rs Hrs)].
+  rewrite (round_robin_even_per_accessor ch cu calls false av ku i); try assumption;
+    [reflexivity|intros rs Hrs; apply (Hav false rs Hrs)].
+Qed.
+
+(* ---------------- what run_script executes ---------------- *)
+Lemma run_events_cons c sg e t s ch cu :
+  run_events c sg (e :: t) s ch cu =
+  ev_out c sg (s, (ch, cu)) e ++
+  run_events c sg t (fst (ev_step c sg (s, (ch, cu)) e))
+             (fst (snd (ev_step c sg (s, (ch, cu)) e))) (snd (snd (ev_step c sg (s, (ch, cu)) e))).
+Proof.
+  destruct e as [op arg]. cbn [run_events ev_out ev_step fst snd].
+  destruct (op =? 0); [reflexivity|].
+  destruct (op =? 1).
+  { destruct (get_many is_healthy sg _ ch (Z.to_nat arg)) as [l c']. reflexivity. }
+  destruct (op =? 2); [|reflexivity].
+  destruct (get_many is_usable sg _ cu (Z.to_nat arg)) as [l c']. reflexivity.
+Qed.
+
+Lemma run_events_split c sg pre e post s ch cu :
+  let sc := fold_left (ev_step c sg) pre (s, (ch, cu)) in
+  let sc' := ev_step c sg sc e in
+  run_events c sg (pre ++ e :: post) s ch cu =
+  run_events c sg pre s ch cu ++ ev_out c sg sc e ++
+  run_events c sg post (fst sc') (fst (snd sc')) (snd (snd sc')).
+Proof.
+  revert s ch cu. induction pre as [|e0 pre IH]; intros s ch cu; cbn zeta.
+  - cbn [app fold_left run_events]. apply run_events_cons.
+  - cbn [app fold_left]. rewrite !run_events_cons. rewrite <- app_assoc. f_equal.
+    destruct (ev_step c sg (s, (ch, cu)) e0) as [s1 [h1 u1]] eqn:E. cbn [fst snd]. apply IH.
+Qed.
+
+Lemma ev_sim_indep c sg evs s cc :
+  fst (fold_left (ev_step c sg) evs (s, cc)) = fold_left (fun s n => advance c n s) (ev_waits evs) s.
+Proof.
+  revert s cc. induction evs as [|[op arg] evs IH]; intros s cc; [reflexivity|].
+  cbn [fold_left ev_waits flat_map fst snd]. unfold ev_step at 2. cbn [fst snd].
+  destruct (op =? 0); [cbn [app fold_left]; apply IH|].
+  cbn [app]. destruct (op =? 1); [apply IH|]. destruct (op =? 2); apply IH.
+Qed.
+
+Lemma ev_state_is_reach c sg scripts pre :
+  fst (fold_left (ev_step c sg) pre (start c scripts, (0, 0))) = reach c scripts (ev_waits pre).
+Proof. apply ev_sim_indep. Qed.
+
+Lemma get_calls_repeat sg ch cu b rs k :
+  get_calls sg ch cu (repeat (b, rs) k) =
+  (fst (get_many (flt_of b) sg rs (if b then ch else cu) k),
+   (if b then snd (get_many (flt_of b) sg rs ch k) else ch,
+    if b then cu else snd (get_many (flt_of b) sg rs cu k))).
+Proof.
+  revert ch cu. induction k as [|k IH]; intros ch cu; [destruct b; reflexivity|].
+  cbn [repeat get_calls get_many].
+  destruct b; cbn [flt_of].
+  - destruct (get_with_filter is_healthy sg rs ch) as [r c1]. rewrite IH. cbn [flt_of].
+    destruct (get_many is_healthy sg rs c1 k) as [l c2]. reflexivity.
+  - destruct (get_with_filter is_usable sg rs cu) as [r c1]. rewrite IH. cbn [flt_of].
+    destruct (get_many is_usable sg rs c1 k) as [l c2]. reflexivity.
+Qed.
+
+Lemma ev_calls_app c sg pre post s cc :
+  ev_calls c (pre ++ post) s =
+  ev_calls c pre s ++ ev_calls c post (fst (fold_left (ev_step c sg) pre (s, cc))).
+Proof.
+  revert s cc. induction pre as [|[op arg] pre IH]; intros s cc; [reflexivity|].
+  cbn [app ev_calls fold_left]. unfold ev_step at 2. cbn [fst snd].
+  destruct (op =? 0) eqn:E0; [apply IH|].
+  destruct (op =? 1) eqn:E1; cbn [orb].
+  { rewrite <- app_assoc. f_equal. apply IH. }
+  destruct (op =? 2) eqn:E2; [rewrite <- app_assoc; f_equal|]; apply IH.
+Qed.
+
+(* the cursors after a prefix of events are those of get_calls over all accessor calls so far *)
+Lemma ev_cursors c sg evs s ch cu :
+  snd (fold_left (ev_step c sg) evs (s, (ch, cu))) = snd (get_calls sg ch cu (ev_calls c evs s)).
+Proof.
+  revert s ch cu. induction evs as [|[op arg] evs IH]; intros s ch cu; [reflexivity|].
+  cbn [fold_left ev_calls]. unfold ev_step at 2. cbn [fst snd].
+  destruct (op =? 0) eqn:E0; [apply IH|].
+  destruct (op =? 1) eqn:E1; cbn [orb].
+  { rewrite IH, get_calls_app, get_calls_repeat. reflexivity. }
+  destruct (op =? 2) eqn:E2; [|apply IH].
+  rewrite IH, get_calls_app, get_calls_repeat. reflexivity.
+Qed.
+
+(* the picks printed by the selection events of a script, in order, are the picks of get_calls over
+   all accessor calls of the script (each with the published states at that point) *)
+Lemma trace_selection_calls c sg pre e s ch cu :
+  fst e = 1 \/ fst e = 2 ->
+  let sc := fold_left (ev_step c sg) pre (s, (ch, cu)) in
+  map enc_sel (fst (get_calls sg ch cu (ev_calls c (pre ++ [e]) s))) =
+  map enc_sel (fst (get_calls sg ch cu (ev_calls c pre s))) ++ ev_out c sg sc e.
+Proof.
+  intros He sc. rewrite (ev_calls_app c sg pre [e] s (ch, cu)), get_calls_app. cbn [fst].
+  rewrite map_app. f_equal.
+  pose proof (ev_cursors c sg pre s ch cu) as Hc. fold sc in Hc.
+  destruct e as [op arg]. cbn [fst] in He. cbn [ev_calls ev_out].
+  rewrite <- Hc. fold sc. rewrite app_nil_r.
+  destruct He as [-> | ->]; cbn [Z.eqb Pos.eqb orb]; rewrite get_calls_repeat; reflexivity.
+Qed.
+
+(* ================= non-vacuity: one cursor per accessor ================= *)
+(* the former starvation witness (two Healthy resources, RoundRobin, get_healthy / get_usable
+   alternating): with one cursor per accessor get_healthy now returns 0, 1, 0, 1 and so does get_usable *)
+Example ex_rr_witness_script :
+  run_script [2;1;1;5;2;0;1; 1; 10; 0;0; 0;0; 0;0; 0;1; 1;1; 2;1; 1;1; 2;1; 1;1; 2;1; 1;1; 2;1] =
+    [0; 0; 1; 1; 1; 0; 0; 1; 1; 1;   0; 0; 1; 1; 1; 0; 0; 1; 1; 1;   0; 0; 1; 1; 0; 0; 1; 1].
+Proof. vm_compute. reflexivity. Qed.
+(* the hypotheses of round_robin_even_per_accessor are met with the accessors interleaved AND the
+   statuses changing in between (resource 2 Degraded <-> Unhealthy): get_healthy's eligible list stays
+   [0; 1], its four calls return 1, 0, 1, 0 from cursor 3, while get_usable's list changes *)
+Definition ex_hhd := [ {| st := Healthy; cf := 0; cs := 1 |}; {| st := Healthy; cf := 0; cs := 1 |};
+                       {| st := Degraded; cf := 0; cs := 1 |} ].
+Definition ex_hhu := [ {| st := Healthy; cf := 0; cs := 1 |}; {| st := Healthy; cf := 0; cs := 1 |};
+                       {| st := Unhealthy; cf := 2; cs := 0 |} ].
+Definition ex_calls := [(true, ex_hhd); (false, ex_hhd); (true, ex_hhu); (false, ex_hhu); (false, ex_hhd);
+                        (true, ex_hhd); (true, ex_hhu); (false, ex_hhu); (false, ex_hhd)].
+Example ex_rr_per_accessor :
+  let av := [(0%nat, Healthy); (1%nat, Healthy)] in
+  (forall rs, In (true, rs) ex_calls -> available (flt_of true) rs = av) /\
+  length (sub_calls true ex_calls) = (2 * length av)%nat /\ 3 + Z.of_nat (2 * length av) <= two64 /\
+  map enc_sel (fst (get_calls RoundRobin 3 7 ex_calls)) = [1; 1; 0; 0; 0; 1; 0; 0; 2] /\
+  map enc_sel (sub_picks true ex_calls (fst (get_calls RoundRobin 3 7 ex_calls))) = [1; 0; 1; 0] /\
+  snd (get_calls RoundRobin 3 7 ex_calls) = (7, 12).
+Proof.
+  cbn zeta. split.
+  { intros rs H. cbn in H.
+    repeat (destruct H as [H|H]; [try discriminate; injection H as <-; reflexivity|]). destruct H. }
+  split; [reflexivity|]. split; [vm_compute; discriminate|]. vm_compute. repeat split.
+Qed.
+(* the merged stream of the two accessors is NOT a rotation any more: same eligible list for both,
+   alternating calls: 0, 0, 1, 1, ... (each member 2 + 2 times in 8 calls: round_robin_even_combined) *)
+Example ex_rr_combined_merge :
+  map enc_sel (fst (get_seq RoundRobin [ {| st := Healthy; cf := 0; cs := 1 |}; {| st := Healthy; cf := 0; cs := 1 |} ]
+                            0 0 (map Nat.even (seq 0 8)))) = [0; 0; 1; 1; 0; 0; 1; 1].
+Proof. vm_compute. reflexivity. Qed.
+(* differing eligible sets (healthy {0,1}, usable {0,1,2}), alternating: each accessor's own stream is a
+   rotation of its own set: get_healthy 0,1,0,1,0,1 and get_usable 0,1,2,0,1,2 *)
+Example ex_rr_differing_sets :
+  map enc_sel (fst (get_seq RoundRobin ex_hhd 0 0 (map Nat.even (seq 0 12)))) =
+    [0; 0; 1; 1; 0; 2; 1; 0; 0; 1; 1; 2].
+Proof. vm_compute. reflexivity. Qed.
